@@ -178,7 +178,7 @@ pub fn build_layer(l: &LayerD) -> Layer {
     layer.role = Role::Normal;
     if let Some((w, h, data)) = &l.image {
         layer.role = Role::Image;
-        layer.sixels.push(icy_engine::Sixel::from_data((*w, *h), 1, 1, data.clone()));
+        layer.sixels.push(icy_engine::Sixel::from_data((*w, *h), 1, 1, image_bytes(*w, *h, data)));
     }
     layer.set_offset((l.ox, l.oy));
     for c in &l.cells {
@@ -192,6 +192,25 @@ pub fn build_layer(l: &LayerD) -> Layer {
     layer.properties.is_position_locked = l.pos_locked;
     layer.properties.is_alpha_channel_locked = l.alpha_locked;
     layer
+}
+
+/// the RGBA bytes of an image layer: stored in full, or - for pictures of megabytes - as an 8-byte seed that is expanded
+/// here (keeps cases and replay files small)
+pub fn image_bytes(w: i32, h: i32, data: &[u8]) -> Vec<u8> {
+    let want = (w as usize) * (h as usize) * 4;
+    if data.len() == 8 && want != 8 {
+        let mut x = u64::from_le_bytes(data.try_into().unwrap()) | 1;
+        let mut out = Vec::with_capacity(want + 8);
+        while out.len() < want {
+            x ^= x << 13;
+            x ^= x >> 7;
+            x ^= x << 17;
+            out.extend_from_slice(&x.to_le_bytes());
+        }
+        out.truncate(want);
+        return out;
+    }
+    data.to_vec()
 }
 
 pub fn build(doc: &DocD) -> Buffer {
